@@ -186,7 +186,7 @@ pub fn run(e: &'static Engine) {
         }));
     }
     e.par(jobs);
-    let total: u32 = e.tier.pick(6400, 200_000);
+    let total: u32 = e.tier.pick(25_600, 400_000);
     let shards = e.tier.pick(32u32, 128);
     let mut jobs: Vec<Job> = Vec::new();
     for _ in 0..shards {
@@ -200,6 +200,7 @@ pub fn run(e: &'static Engine) {
         }));
     }
     e.par(jobs);
+    super::common::standard_parts(e, 9600, 144000, check);
     let _ = hex(&[]);
     e.set_exhaustive(false, "option combinations and capacity boundaries are covered systematically; byte strings are sampled");
 }
